@@ -252,6 +252,11 @@ func runC08(c *fw.Ctx) {
 	for s := 0; s < scen; s++ {
 		c08Scenario(c, s)
 	}
+	// concurrent arrival: a node's own writes on one retained topic while a peer's ahead-stamped updates
+	// of it are merged; the node must end up with what a follower fed with the same updates has
+	for r := 0; r < c.Pick(2, 10); r++ {
+		c20HotTopic(c, 800+r)
+	}
 }
 
 func nonNilS(s *api.SessionMetadatas) []*api.SessionMetadatas {
